@@ -235,10 +235,16 @@ func (im *impl) exec(line string) (string, string) {
 		if err := im.c.AddReplica(im.addr(i)); err != nil {
 			return line, im.state("refused")
 		}
-		// the replica's side of an addition (sync.Task.AddReplica): it marks itself as rebuilding; what it
-		// held is no longer what counts
-		r.Rebuilding = true
-		r.Log = nil
+		return line, im.state("ok")
+	case "setrb":
+		// the replica's next step in sync.Task.AddReplica: it marks itself as rebuilding; what it held is
+		// no longer what counts (the transfer overwrites it)
+		i, _ := strconv.Atoi(f[1])
+		if im.members()[i] != types.WO {
+			return line, im.state("refused")
+		}
+		im.rep(i).Rebuilding = true
+		im.rep(i).Log = nil
 		return line, im.state("ok")
 	case "promote":
 		i, _ := strconv.Atoi(f[1])
@@ -415,6 +421,10 @@ func generate(rng *rand.Rand, hosts []string, steps int, anyStop bool) *gen {
 		x := rng.Float64()
 		switch {
 		case len(wos) > 0 && len(rws) > 0 && x < 0.35:
+			if !im.rep(wos[0]).Rebuilding && rng.Float64() < 0.7 {
+				g.do(fmt.Sprintf("setrb %d", wos[0]))
+				continue
+			}
 			g.do(fmt.Sprintf("promote %d %d", wos[0], rws[0]))
 			g.feat["promote"] = true
 		case x < 0.45:
@@ -437,8 +447,15 @@ func generate(rng *rand.Rand, hosts []string, steps int, anyStop bool) *gen {
 				}
 			}
 			if len(wos) == 0 && len(all) < rf && len(rws) > 0 && len(cands) > 0 {
-				g.do(fmt.Sprintf("add %d", cands[rng.Intn(len(cands))]))
+				k := cands[rng.Intn(len(cands))]
+				o := g.do(fmt.Sprintf("add %d", k))
 				g.feat["add"] = true
+				// the replica marks itself as rebuilding right away — most of the time
+				if strings.HasPrefix(o, "ok") && rng.Float64() < 0.85 {
+					g.do(fmt.Sprintf("setrb %d", k))
+				} else {
+					g.feat["attached-not-yet-marked"] = true
+				}
 			}
 		case x < 0.86:
 			if len(rws) < rf/2+1 && rng.Float64() < 0.85 {
